@@ -108,20 +108,28 @@ def ofOptInt : Option Int → JVal
 
 def ofStrList (l : List Str) : JVal := .arr (l.map .str)
 
-/-! ### Canonical printer (compact separators, keys in stored order; ASCII escapes as `json.dumps`) -/
+/-! ### Printer (compact separators, keys in stored order; ASCII escapes as `json.dumps`) -/
 
 def hexDigit (n : Nat) : Char :=
   if n < 10 then Char.ofNat (48 + n) else Char.ofNat (87 + n)
 
+def hex4 (n : Nat) : Str :=
+  ['\\', 'u', hexDigit (n / 4096 % 16), hexDigit (n / 256 % 16), hexDigit (n / 16 % 16), hexDigit (n % 16)]
+
+/-- `json.encoder.py_encode_basestring_ascii`: `"` `\\` and the five short control escapes; every
+other character outside `' '..'~'` as `\uXXXX` (a surrogate pair above the BMP). -/
 def escapeChar (c : Char) : Str :=
   if c = '"' then ['\\', '"']
   else if c = '\\' then ['\\', '\\']
   else if c = '\n' then ['\\', 'n']
   else if c = '\t' then ['\\', 't']
   else if c = '\r' then ['\\', 'r']
+  else if c.toNat = 8 then ['\\', 'b']
+  else if c.toNat = 12 then ['\\', 'f']
   else if c.toNat < 32 ∨ 126 < c.toNat then
     let n := c.toNat
-    ['\\', 'u', hexDigit (n / 4096 % 16), hexDigit (n / 256 % 16), hexDigit (n / 16 % 16), hexDigit (n % 16)]
+    if n < 65536 then hex4 n
+    else hex4 (55296 + (n - 65536) / 1024) ++ hex4 (56320 + (n - 65536) % 1024)
   else [c]
 
 def renderStr (s : Str) : Str := '"' :: (s.flatMap escapeChar ++ ['"'])
@@ -149,6 +157,27 @@ def renderKvs : List (Str × JVal) → Str
   | [] => []
   | [(k, a)] => renderStr k ++ (':' :: render a)
   | (k, a) :: b :: r => renderStr k ++ (':' :: render a) ++ (',' :: renderKvs (b :: r))
+end
+
+/-! ### `json.dumps` with its default separators `", "` / `": "` (keys in stored order) -/
+
+mutual
+def renderSp : JVal → Str
+  | .null => ['n', 'u', 'l', 'l']
+  | .bool true => ['t', 'r', 'u', 'e']
+  | .bool false => ['f', 'a', 'l', 's', 'e']
+  | .num n => renderInt n
+  | .str s => renderStr s
+  | .arr xs => '[' :: (renderSpList xs ++ [']'])
+  | .obj kvs => '{' :: (renderSpKvs kvs ++ ['}'])
+def renderSpList : List JVal → Str
+  | [] => []
+  | [a] => renderSp a
+  | a :: b :: r => renderSp a ++ (',' :: ' ' :: renderSpList (b :: r))
+def renderSpKvs : List (Str × JVal) → Str
+  | [] => []
+  | [(k, a)] => renderStr k ++ (':' :: ' ' :: renderSp a)
+  | (k, a) :: b :: r => renderStr k ++ (':' :: ' ' :: renderSp a) ++ (',' :: ' ' :: renderSpKvs (b :: r))
 end
 
 end JVal
